@@ -212,6 +212,19 @@ def digit_run_of(ctx, t, p=None):
         h0 = strip_refs(hi)
         if isinstance(h0, tuple) and h0 and h0[0] == "field" and h0[2] == 0 and isinstance(h0[1], tuple) and h0[1][0] == "downcast" and h0[1][2] == "Some" and first_non_digit(h0[1][1]):
             return X
+        # ... or end = the number of leading bytes / chars that are digits: X.bytes().take_while(u8::is_ascii_digit).count() (a digit is one byte)
+        if is_call(h0, "Iterator::count", "::count") and call_args(h0):
+            tw = strip_refs(call_args(h0)[0])
+            if is_call(tw, "::take_while") and len(call_args(tw)) == 2:
+                it = strip_refs(call_args(tw)[0])
+                f = strip_refs(call_args(tw)[1])
+                isdig = isinstance(f, tuple) and f and f[0] == "const" and isinstance(f[2], tuple) and f[2][0] == "fn" and f[2][1].endswith("is_ascii_digit")
+                if not isdig and isinstance(f, tuple) and f[:2] == ("agg", "closure"):
+                    ps_ = ctx.paths(f[2])
+                    tbl = char_table(ps_, is_param=lambda t_: strip_refs(t_) == ("param", 2)) if ps_ else {}
+                    isdig = bool(tbl) and all(v is not None for v in tbl.values()) and all(v == (c.isascii() and c.isdigit()) for c, v in tbl.items())
+                if isdig and is_call(it, "str>::bytes", "str>::chars") and content(call_args(it)[0]) == X:
+                    return X
     return None
 
 
